@@ -100,6 +100,24 @@ CLAIMS = {
         "Invariance under general linear maps and floating-point conditioning are not decided.",
         "DESIGN.md section 3 (C20)",
     ),
+    "C03": (
+        "CFG retry-loop rule on the bounds predicate, expression-DAG isomorphism of the two density terms modulo u_prime<->self.u, sign x monotonicity abstract domain for the orientation of the correction and of the Metropolis step, algebraic lints (sympy) for the Crank-Nicolson identity and the inverse-gamma parameters with own-cluster index typing, dependence check for the symmetric random walk",
+        "Static decision of six structural necessary conditions of detailed balance for both kernels (single draw, two-sided density, orientation, a^2+b^2=1, gamma shape/scale, symmetric random walk). The redraw-until-inside loops of both kernels are listed known findings (K1a/K1b).",
+        "Necessary conditions only: invariance itself, consistent two-sided edits and numerics of the covariance factors are not decided.",
+        "DESIGN.md section 3 (C03)",
+    ),
+    "C04": (
+        "abstract interpretation of the weight function in a shift/scale/axis type system (A7) with coefficient atoms for the history betas, max-shift tracking for exponentials, backward dependence slices, selector/special-case lint on per-iteration vectors",
+        "Static decision that each mixture column is shift-free before a symmetric reduction over the iteration axis, that log-weights/evidence shift by exactly beta_final and normalised weights are shift-free with unit sum, that no exponential is taken of a non-max-shifted log quantity, that the denominator depends on every component's beta, logZ and normalised batch size, and that no component is dropped, merged or special-cased.",
+        "Numerical equality with the formula (a sign error preserving types and dependence) is not decided.",
+        "DESIGN.md section 3 (C04)",
+    ),
+    "C10": (
+        "whole-pipeline shift typing (A7) with an assume/guarantee contract at the state-key boundary: 75 functions typed by inlining internal calls; sinks = branch conditions, state writes, returned weights, row-selection indices; guarantee = provenance of every `logz` write",
+        "Static decision (sufficient in exact arithmetic on the typed paths) that absolute log-likelihood values reach no branch condition, no state key other than logl/logz, no weight vector or accept mask, and that every stored logz is the evidence component of the weight function (or shift-free at beta = 0).",
+        "Assumes the weight function has the type decided under C04; floating-point rounding and user code not decided.",
+        "DESIGN.md section 3 (C10)",
+    ),
 }
 
 NOT_APPLICABLE = {
